@@ -340,6 +340,7 @@ def fixed_width_mods(ctx):
 @PROP.obligation('C13.digest-form', canaries=[
     mut.replace_stmt('keys', 'Signature.create', 'if isinstance(txid, bytes):', 'txid = to_bytes(txid).hex()', 'digest bytes pass through the hex-sniffing normaliser'),
     mut.replace_expr('keys', 'Signature.verify', 'to_hexstring(txid)', 'txid', 'digest string reaches the verifier unvalidated'),
+    mut.replace_expr('keys', 'Signature.verify', 'to_hexstring(txid)', 'to_bytes(txid).hex()', 'digest bytes of the verifier pass through the hex-sniffing normaliser'),
 ])
 def digest_form(ctx):
     """The message digest reaches the ECDSA back end as the hexadecimal text of exactly the bytes the caller gave. Signature.create: a
@@ -394,6 +395,11 @@ def digest_form(ctx):
         v = a.value
         ctx.saw('Signature.verify: self.txid = %s' % norm(v))
         ok = isinstance(v, ast.Call) and (norm(v.func) == 'to_hexstring' or (isinstance(v.func, ast.Attribute) and v.func.attr == 'hex'))
+        sniff = [c for c in ast.walk(v) if isinstance(c, ast.Call) and norm(c.func) in ('to_bytes', 'normalize_var') and not any(k.arg == 'unhexlify' and isinstance(k.value, ast.Constant) and k.value.value is False for k in c.keywords)]
+        if sniff:
+            ctx.violate(q, 'the digest argument is stored as `%s`: bytes pass through %s(...), which reads 32 bytes that spell hexadecimal text as the 16 bytes they spell' % (norm(v)[:60], norm(sniff[0].func)), a,
+                        "verify(b'deadbeef' * 4, sig, key) answers for another digest than the one given: False for the valid triple, True for a signature over the spelled 16 bytes")
+            continue
         if not ok and any(isinstance(n, ast.Name) and n.id == 'txid' for n in ast.walk(v)):
             ctx.violate(q, 'the digest argument is stored as `%s` without conversion to hexadecimal text' % norm(v), a,
                         'a digest string that is not plain hex ("0x..", a typo) reaches the C verifier, which reads it as 0: a signature forged for digest 0 (no private key needed) is accepted')
